@@ -256,6 +256,12 @@ func checkC11(c *Ctx) {
 	c.Rule("C11-R25", "focus-in and focus-out reports arrive as focus events: no key table assigns ESC [ I or ESC [ O to a key (the key matcher runs before the focus parser), and keys that merely share a prefix with them are held apart (= C02-R12)")
 	c.Expect("C11-R25", 40)
 	recogniserConflicts(c, p, buildDB(c, p), "C11-R25")
+	c.Rule("C11-R26", "typed characters are delivered without loss also when the window changes size: nothing but the consumer side takes events out of the queue (= C05-R20)")
+	c.Expect("C11-R26", 1)
+	checkOnlyConsumersReceive(c, p, "C11-R26")
+	c.Rule("C11-R27", "a multi-byte character split over reads is one character: once parseRune has asked the decoder its answers are 'complete' and 'wait'; 'not a character' after the decoder loop only where the buffer is already 4 bytes or longer (GB18030 has 7-bit bytes inside its four-byte characters)")
+	c.Expect("C11-R27", 1)
+	checkNotMineOnlyBeforeTheDecoder(c, p, "C11-R27")
 	pr := p.Fn("tcell:(*tScreen).parseRune")
 	if pr == nil {
 		c.Undecided("C11-R1", "parseRune", "-", "not found")
